@@ -79,6 +79,10 @@ class PathMgr:
 
     def static_of(self, v):
         sid = smt.static_id(v)
+        if sid is None:
+            eq = self.eq_static.get(smt.simp(v).get_id())
+            if eq is not None:
+                sid = smt.static_id(eq)
         if sid is None or sid >= 0:
             return None
         if sid in self.path_statics:
@@ -98,6 +102,8 @@ class PathMgr:
         self.pc_axiom: List[bool] = []
         self.alloc_cls: Dict[int, ClassInfo] = {}
         self.bounded: set = set()
+        self.eq_static: Dict[int, Any] = {}
+        self.callable_candidates: List[Any] = []
         self.old_terms: set = set()
         self.kind_hint: Dict[int, str] = {}
         self.sub_depth = 0
@@ -273,6 +279,7 @@ class PathMgr:
         axioms = []
         entry_ref = self.next_ref
         keep_st = None
+        seen_ax: set = set()
         self.sub_depth += 1
         try:
             while sub_pending:
@@ -290,10 +297,16 @@ class PathMgr:
                 except Infeasible:
                     pass
                 finally:
-                    axioms.extend(c for c, ax in zip(self.pc[base:], self.pc_axiom[base:]) if ax)
+                    new_ax = [c for c, ax in zip(self.pc[base:], self.pc_axiom[base:]) if ax]
                     self.solver.pop()
                     del self.pc[base:]
                     del self.pc_axiom[base:]
+                    # axioms are valid on every path: keep them for the sibling sub-paths and the caller
+                    for c in new_ax:
+                        if c.get_id() not in seen_ax:
+                            seen_ax.add(c.get_id())
+                            self._add_pc(c, axiom=True)
+                    base = len(self.pc)
                     if pure:
                         # a pure clause only writes cells of objects it allocated itself: keep those stores
                         for fld, ref, _ in self.writes[saved[12]:]:
@@ -312,11 +325,6 @@ class PathMgr:
         finally:
             self.sub_depth -= 1
             self.decisions, self.pos, self.pending = saved[0], saved[1], saved[2]
-        seen = set()
-        for c in axioms:
-            if c.get_id() not in seen:
-                seen.add(c.get_id())
-                self._add_axiom(c)
         return results
 
     def merged_truth(self, thunk, what: str = ''):
@@ -344,6 +352,11 @@ class PathMgr:
             if z3.is_and(x):
                 todo.extend(x.children())
                 continue
+            if z3.is_eq(x) and x.arg(0).sort() == Val:
+                for a, b in ((x.arg(0), x.arg(1)), (x.arg(1), x.arg(0))):
+                    sid = smt.static_id(b)
+                    if sid is not None and sid < 0 and smt.static_id(a) is None:
+                        self.eq_static[a.get_id()] = b
             hit = self.isinst_terms.get(x.get_id())
             if hit is not None:
                 term, K = hit
